@@ -36,7 +36,7 @@ func (c13) Assumptions() []string {
 func (c13) RequiredBuckets(tier string) []string {
 	return []string{"control:clean-entry-reads-back", "flip:header", "flip:body", "truncate", "extend", "wrong-key:renamed", "wrong-key:in-place",
 		"crash:created", "crash:placeholder", "crash:body-write", "crash:flate-closed", "crash:hashed", "crash:pre-header", "crash:post-header", "tear",
-		"fault:open-failed", "crash:over-an-earlier-entry", "cli:crash-then-clean-run", "cli:multi-MiB-output", "cli:two-inputs,-same-arguments", "body:empty", "body:multi-block", "body:stored-size-block-aligned"}
+		"fault:open-failed", "crash:over-an-earlier-entry", "cli:crash-then-clean-run", "cli:multi-MiB-output", "cli:two-inputs,-same-arguments", "body:empty", "body:multi-block", "body:stored-size-block-aligned", "body:several-MiB"}
 }
 
 type body struct {
@@ -465,7 +465,65 @@ func (m c13) Run(c *fw.Ctx) {
 		}
 		os.Remove(x.path())
 	}
+	m.bigBody(c, x)
 	m.cliCrashes(c)
+}
+
+// bigBody: one entry of several MiB (incompressible, so the stored body is as
+// long): damage far into the body - beyond any window a digest might be
+// limited to - is damage all the same.
+func (m c13) bigBody(c *fw.Ctx, x *c13ctx) {
+	r := c.SubRng("c13-big-body")
+	data := make([]byte, 6<<20+4321)
+	r.Read(data)
+	bd := body{"6MiB-incompressible", data}
+	os.Remove(x.path())
+	cache.VerifPlan = func(string, int) string { return "" }
+	cache.VerifReset()
+	if crashed, err := x.writeEntry(bd.data, 1<<16); crashed || err != nil {
+		c.Inconclusive(fmt.Sprintf("cannot write the 6 MiB entry: crashed=%v err=%v", crashed, err))
+		return
+	}
+	F, err := os.ReadFile(x.path())
+	if err != nil || len(F) < 6<<20 {
+		c.Inconclusive(fmt.Sprintf("cannot read back the 6 MiB entry: %v (%d bytes)", err, len(F)))
+		return
+	}
+	put := func(b []byte) { os.WriteFile(x.path(), b, 0644) }
+	if c.NextShared() {
+		c.Bucket("body:several-MiB")
+		x.judge(bd, "none", "6 MiB body", false, false)
+	}
+	offs := []int{60, 60 + 1<<20, 60 + 4<<20 - 1, 60 + 4<<20, 60 + 4<<20 + 1, 60 + 5<<20, len(F) - 4097, len(F) - 2, len(F) - 1, 60 + 4<<20 + r.Intn(2<<20), 60 + 4<<20 + r.Intn(2<<20)}
+	for _, off := range offs {
+		for _, mk := range []int{1, 0xFF} {
+			if !c.NextShared() {
+				continue
+			}
+			g := append([]byte(nil), F...)
+			g[off] ^= byte(mk)
+			put(g)
+			c.Bucket("flip:body")
+			x.judge(bd, "flip", fmt.Sprintf("offset=%d xor=%#x of %d", off, mk, len(F)), true, true)
+		}
+	}
+	for _, n := range []int{len(F) - 1, len(F) - 4096, 60 + 5<<20, 60 + 4<<20} {
+		if !c.NextShared() {
+			continue
+		}
+		put(F[:n])
+		c.Bucket("truncate")
+		x.judge(bd, "truncate", fmt.Sprintf("to=%d of %d", n, len(F)), true, true)
+	}
+	for _, t := range []int{1, 60} {
+		if !c.NextShared() {
+			continue
+		}
+		put(append(append([]byte(nil), F...), make([]byte, t)...))
+		c.Bucket("extend")
+		x.judge(bd, "extend", fmt.Sprintf("by=%d zero bytes after %d", t, len(F)), true, true)
+	}
+	os.Remove(x.path())
 }
 
 // cliCrashes kills the real CLI at every hook point of its own cache write
